@@ -9,6 +9,7 @@ import Dlismodel.Model.Eflr
 import Dlismodel.Model.ParseEflr
 import Dlismodel.Model.Iflr
 import Dlismodel.Model.Api
+import Dlismodel.Model.Output
 namespace Dlis
 
 def hexDigit (n : Nat) : Char := if n < 10 then Char.ofNat (48 + n) else Char.ofNat (87 + n)
@@ -353,6 +354,13 @@ def handle (ws : List String) : String :=
   | ["nbody", o, c, n, h] => match o.toInt?, c.toInt?, parseCps n, bytesOfHex h with
     | some o, some c, some n, some p => showRes (noFormatBody { origin := o, copy := c, name := n } p)
     | _, _, _, _ => "bad"
+  -- buffered output: capacity, label, visible records -> total and the physical writes
+  | "out" :: cap :: sul :: vrs =>
+    match cap.toNat?, bytesOfHex sul, vrs.mapM bytesOfHex with
+    | some cap, some sul, some vrs =>
+      let o := runOutput cap sul vrs
+      s!"ok {o.total} " ++ ",".intercalate (o.writes.map fun w => toString w.length)
+    | _, _, _ => "bad"
   | "hist" :: n :: ops =>
     match n.toNat?, ops.mapM parseOp with
     | some n, some ops => "ok " ++ showWorld (run (World.init n) ops)
